@@ -28,7 +28,7 @@ ASSUMPTIONS = ["acceptance table: Ito {euler, milstein, srk}; Stratonovich {eule
                "forward pass; srk, log_ode, reversible_heun never",
                "a supported adjoint combination must give finite gradients within 10% (relative L2, dt=1/64) of "
                "backprop through the same forward solver; an unsupported one must raise when backward starts"]
-REQUIRED_COUNTERS = ["forward_accepted", "forward_rejected", "adjoint_supported", "adjoint_refused", "malformed", "malformed_base_call_accepted",
+REQUIRED_COUNTERS = ["malformed_after_valid_call_on_same_object", "forward_accepted", "forward_rejected", "adjoint_supported", "adjoint_refused", "malformed", "malformed_base_call_accepted",
                      "defaults_checked"]
 METHODS = ["euler", "milstein", "srk", "midpoint", "reversible_heun", "adjoint_reversible_heun", "heun", "log_ode",
            "euler_heun", "blah"]
@@ -86,6 +86,11 @@ def cases(tier, seed):
                         "noise_type": nt, "cost": 2})
     out.append({"key": "malformed-sdeint", "kind": "malformed", "entry": "sdeint", "cost": 2})
     out.append({"key": "malformed-sdeint_adjoint", "kind": "malformed", "entry": "sdeint_adjoint", "cost": 2})
+    # the same classes on an SDE object that has just been through a VALID call (validation must not be remembered per
+    # object: the second call of a training loop is validated like the first)
+    out.append({"key": "malformed-sdeint-warm", "kind": "malformed", "entry": "sdeint", "cost": 2, "warm": True})
+    out.append({"key": "malformed-sdeint_adjoint-warm", "kind": "malformed", "entry": "sdeint_adjoint", "cost": 2,
+                "warm": True})
     out.append({"key": "defaults", "kind": "defaults", "cost": 3})
     return out
 
@@ -344,6 +349,17 @@ def run_malformed(case):
         ts = kw.pop("ts")
         if case["entry"] == "sdeint_adjoint" and not isinstance(sde, nn.Module):
             kw["adjoint_params"] = ()
+        if case.get("warm") and not name.startswith("control"):
+            import torchsde as _ts
+            good = dict(dt=0.25, method=kw.get("method", "euler"),
+                        bm=_ts.BrownianInterval(0.0, 0.5, size=(2, 2), entropy=1, levy_area_approximation="space-time"))
+            if "adjoint_params" in kw:
+                good["adjoint_params"] = kw["adjoint_params"]
+            try:
+                entry(sde, torch.zeros(2, 2), [0.0, 0.5], **good)
+                cnt["malformed_after_valid_call_on_same_object"] = cnt.get("malformed_after_valid_call_on_same_object", 0) + 1
+            except Exception:  # noqa  (classes whose SDE object itself is malformed have no valid call)
+                pass
         with Monitors() as mon:
             try:
                 entry(sde, y0, ts, **kw)
